@@ -40,6 +40,50 @@ fn check(samples: Vec<Vec<(String, Vec<u8>)>>) -> String {
     "distinct".into()
 }
 
+/// "nonce is public" detector for one freshly produced sigma proof: no masking commitment (a point of the
+/// proof) may be `s * B` for a base `B` among G, H and the points of the statement / proof and a scalar `s`
+/// that anyone can compute from the instruction bytes: a proof scalar, a Fiat-Shamir challenge (recorded by the
+/// verif-hooks instrumentation while verifying the proof), or the sum / difference of two of those.
+fn public_nonce(instr: &str, bytes: &[u8]) -> Option<String> {
+    use curve25519_dalek::{constants::RISTRETTO_BASEPOINT_POINT as G, ristretto::CompressedRistretto, scalar::Scalar, traits::IsIdentity};
+    let cl = ctx_len(instr);
+    let h = *solana_zk_sdk::encryption::pedersen::H;
+    let chunk = |o: usize| -> [u8; 32] { bytes[o..o + 32].try_into().unwrap() };
+    // challenges: verify the proof once with the hook on
+    let _ = crate::sigma::take_trace();
+    let out = crate::sigma::op_verify(&[instr, &hex(bytes)]);
+    let mut scalars: Vec<Scalar> = out.split(" ~").nth(1).unwrap_or("").split(',')
+        .filter_map(|kv| kv.split('=').nth(1)).filter_map(|h| unhex(h)).filter_map(|b| arr::<32>(&b))
+        .map(Scalar::from_bytes_mod_order).collect();
+    let mut bases = vec![G, h];
+    let mut off = 0;
+    while off + 32 <= bytes.len() {
+        if instr == "cap" && off == 96 { off += 8; continue; }
+        let c = chunk(off);
+        if let Some(p) = CompressedRistretto(c).decompress() { if !p.is_identity() { bases.push(p); } }
+        if off >= cl { if let Some(s) = Option::<Scalar>::from(Scalar::from_canonical_bytes(c)) { scalars.push(s); } }
+        off += 32;
+    }
+    let base_scalars = scalars.clone();
+    for a in base_scalars.iter() { for b in base_scalars.iter() { scalars.push(a - b); scalars.push(a + b); } }
+    scalars.retain(|s| *s != Scalar::ZERO);
+    let mut off = cl;
+    while off + 32 <= bytes.len() {
+        if let Some(y) = CompressedRistretto(chunk(off)).decompress() {
+            if !y.is_identity() {
+                for (bi, b) in bases.iter().enumerate() {
+                    if *b == y { continue; }
+                    for s in scalars.iter() {
+                        if s * b == y { return Some(format!("public-nonce:proof+{}=scalar*base{}", off - cl, bi)); }
+                    }
+                }
+            }
+        }
+        off += 32;
+    }
+    None
+}
+
 pub fn op_fresh(a: &[&str]) -> String {
     let Some((what, rest)) = a.split_first() else { return "bad-op".into() };
     let Some((count, args)) = rest.split_last() else { return "bad-op".into() };
@@ -94,6 +138,9 @@ pub fn op_fresh(a: &[&str]) -> String {
             }
             instr => {
                 let Some(Ok(b)) = construct(instr, args) else { return "bad-op".into() };
+                if samples.is_empty() {
+                    if let Some(leak) = public_nonce(instr, &b) { return leak; }
+                }
                 let cl = ctx_len(instr);
                 fresh_fields(instr).iter().map(|o| (format!("proof+{}", o), b[cl + o..cl + o + 32].to_vec())).collect()
             }
